@@ -141,8 +141,9 @@ Section Striping.
   Lemma Inv_silent g g' a tr t e : Inv g a tr -> same_core g g' -> neutral_ev e ->
     Inv g' a (tr ++ Conc.tag t [e]).
   Proof.
-    intros Hi (Hs & Hm & Hb) He. destruct Hi as [I1 I2 I3 I4 I5 I6 I7 I8]. constructor; auto.
+    intros Hi (Hs & Hm & Hb) He. destruct Hi as [I1 I2 I3 I4 I5 I6 I7 I8]. constructor.
     - intros i Hl. rewrite Hs. auto.
+    - exact I2.
     - intros i t0. rewrite tholder_snoc, hstep_neutral by exact He. auto.
     - intros t0 i H. rewrite Hm. eauto.
     - intros t0 b H. rewrite Hb. eauto.
@@ -167,16 +168,131 @@ Section Striping.
   Proof.
     intros Hi Hl Hs. pose proof Hi as [I1 I2 I3 I4 I5 I6 I7 I8].
     pose proof (same_core_xchg_fail g i Hs) as (Hs' & Hm & Hb).
-    constructor; auto.
+    constructor.
     - intros j Hj. rewrite Hs'. auto.
+    - exact I2.
     - intros j t0. rewrite tholder_snoc. cbn [hstep o_spin]. unfold StripingPolicy.zn. rewrite Nat2Z.id.
       destruct (tholder tr i) eqn:E; [apply I3|].
-      exfalso. apply I1 in Hs; auto. destruct Hs as (t1 & Ht1). apply I3 in Ht1. congruence.
+      exfalso. clear j t0. apply I1 in Hs; auto. destruct Hs as (t1 & Ht1). apply I3 in Ht1. congruence.
     - intros t0 j H. rewrite Hm. eauto.
     - intros t0 b H. rewrite Hb. eauto.
     - rewrite Hm, Hb. exact I6.
     - rewrite Hm. exact I7.
     - destruct I8 as (s & st & H1 & H2 & H3 & H4). exists s, st. rewrite hist_of_acc. rewrite Hb. auto.
+  Qed.
+
+
+  (** *** acquiring and releasing a cell *)
+  Lemma pend_setv_same a t v' : pend_of (v_lk v') = [] -> pend_of (lk a t) = [] ->
+    forall x, (exists t0, In x (pend_of (lk (setv a t v') t0))) <-> (exists t0, In x (pend_of (lk a t0))).
+  Proof.
+    intros H1 H2 x. split; intros (t0 & H); destruct (Nat.eq_dec t0 t) as [->|Hne].
+    - rewrite lk_setv_same, H1 in H. destruct H.
+    - rewrite lk_setv_other in H by exact Hne. eauto.
+    - rewrite H2 in H. destruct H.
+    - exists t0. now rewrite lk_setv_other.
+  Qed.
+
+  Lemma Inv_acquire g a tr t i v' :
+    Inv g a tr -> i < nl -> spins g i = false ->
+    v_op v' = v_op (a_view a t) ->
+    (forall j, holds (v_lk v') j <-> holds (lk a t) j \/ j = i) ->
+    pend_of (lk a t) = [] -> pend_of (v_lk v') = [] ->
+    v_mask v' = mask g ->
+    (forall b, v_reg v' b = if Nat.eqb (b mod nl) i then get_b (buckets g) b else v_reg (a_view a t) b) ->
+    Inv (sl_set g (SCell i) true) (setv a t v') (tr ++ Conc.tag t [EvAcc KXchg (o_spin i) true]).
+  Proof.
+    intros Hi Hl Hs Hop Hh Hp Hp' Hm Hr. pose proof Hi as [I1 I2 I3 I4 I5 I6 I7 I8].
+    assert (Hfree : forall t0, ~ holds (lk a t0) i).
+    { intros t0 H. assert (spins g i = true) by (apply I1; eauto). congruence. }
+    assert (Hnone : tholder tr i = None).
+    { destruct (tholder tr i) eqn:E; auto. apply I3 in E. exfalso; eapply Hfree; eauto. }
+    constructor.
+    - intros j Hj. cbn [spins sl_set set_spins]. destruct (Nat.eq_dec j i) as [->|Hne].
+      + rewrite upd1_same. split; auto. intros _. exists t. rewrite lk_setv_same. apply Hh. now right.
+      + rewrite upd1_other by exact Hne. rewrite (I1 j Hj). split; intros (t0 & H0); exists t0;
+          (destruct (Nat.eq_dec t0 t) as [->|Hn]; [|now rewrite lk_setv_other in *]).
+        * rewrite lk_setv_same. apply Hh. now left.
+        * rewrite lk_setv_same in H0. apply Hh in H0. destruct H0; [auto|contradiction].
+    - intros t1 t2 j H1 H2.
+      destruct (Nat.eq_dec t1 t) as [->|N1]; destruct (Nat.eq_dec t2 t) as [->|N2]; auto.
+      + rewrite lk_setv_same in H1. rewrite lk_setv_other in H2 by exact N2. apply Hh in H1. destruct H1 as [H1| ->].
+        * eapply I2; eauto.
+        * exfalso; eapply Hfree; eauto.
+      + rewrite lk_setv_same in H2. rewrite lk_setv_other in H1 by exact N1. apply Hh in H2. destruct H2 as [H2| ->].
+        * eapply I2; eauto.
+        * exfalso; eapply Hfree; eauto.
+      + rewrite lk_setv_other in H1 by exact N1. rewrite lk_setv_other in H2 by exact N2. eapply I2; eauto.
+    - intros j t0. rewrite tholder_snoc. cbn [hstep o_spin]. unfold StripingPolicy.zn. rewrite Nat2Z.id, Hnone.
+      destruct (Nat.eq_dec j i) as [->|Hne].
+      + rewrite upd1_same. destruct (Nat.eq_dec t0 t) as [->|Hn].
+        * rewrite lk_setv_same. split; auto. intros _. apply Hh. now right.
+        * rewrite lk_setv_other by exact Hn. split; [congruence|]. intros H; exfalso; eapply Hfree; eauto.
+      + rewrite upd1_other by exact Hne. rewrite I3. destruct (Nat.eq_dec t0 t) as [->|Hn].
+        * rewrite lk_setv_same, Hh. tauto.
+        * now rewrite lk_setv_other.
+    - intros t0 j H. cbn [mask sl_set set_spins]. destruct (Nat.eq_dec t0 t) as [->|Hn].
+      + now rewrite setv_same.
+      + rewrite lk_setv_other in H by exact Hn. rewrite setv_other by exact Hn. eauto.
+    - intros t0 b H. cbn [buckets sl_set set_spins]. destruct (Nat.eq_dec t0 t) as [->|Hn].
+      + rewrite setv_same, Hr. rewrite lk_setv_same in H. destruct (Nat.eqb_spec (b mod nl) i) as [E|E]; auto.
+        apply Hh in H. destruct H; [|contradiction]. now apply I5.
+      + rewrite lk_setv_other in H by exact Hn. rewrite setv_other by exact Hn. eauto.
+    - exact I6.
+    - exact I7.
+    - destruct I8 as (s & st & H1 & H2 & H3 & H4). exists s, st. rewrite hist_of_acc.
+      split; [exact H1|]. split; [exact H2|]. split.
+      + intros t0. rewrite H3. destruct (Nat.eq_dec t0 t) as [->|Hn]; [now rewrite setv_same|now rewrite setv_other].
+      + cbn [buckets sl_set set_spins]. eapply absrel_ext; [|exact H4].
+        intros x. symmetry. apply (pend_setv_same a t v' Hp' Hp x).
+  Qed.
+
+  Lemma Inv_release g a tr t i v' :
+    Inv g a tr -> holds (lk a t) i ->
+    v_op v' = v_op (a_view a t) ->
+    (forall j, holds (v_lk v') j <-> holds (lk a t) j /\ j <> i) ->
+    pend_of (lk a t) = [] -> pend_of (v_lk v') = [] ->
+    v_mask v' = v_mask (a_view a t) -> (forall b, v_reg v' b = v_reg (a_view a t) b) ->
+    Inv (sl_set g (SCell i) false) (setv a t v') (tr ++ Conc.tag t [EvAcc KSt (o_spin i) true]).
+  Proof.
+    intros Hi Hme Hop Hh Hp Hp' Hm Hr. pose proof Hi as [I1 I2 I3 I4 I5 I6 I7 I8].
+    assert (Hl : i < nl) by (eapply holds_lt; eauto).
+    constructor.
+    - intros j Hj. cbn [spins sl_set set_spins]. destruct (Nat.eq_dec j i) as [->|Hne].
+      + rewrite upd1_same. split; [discriminate|]. intros (t0 & H0). exfalso.
+        destruct (Nat.eq_dec t0 t) as [->|Hn].
+        * rewrite lk_setv_same in H0. apply Hh in H0. tauto.
+        * rewrite lk_setv_other in H0 by exact Hn. apply Hn. eapply I2; eauto.
+      + rewrite upd1_other by exact Hne. rewrite (I1 j Hj). split; intros (t0 & H0); exists t0;
+          (destruct (Nat.eq_dec t0 t) as [->|Hn]; [|now rewrite lk_setv_other in *]).
+        * rewrite lk_setv_same. apply Hh. tauto.
+        * rewrite lk_setv_same in H0. apply Hh in H0. tauto.
+    - intros t1 t2 j H1 H2.
+      assert (K : forall x, holds (lk (setv a t v') x) j -> holds (lk a x) j).
+      { intros x H. destruct (Nat.eq_dec x t) as [->|Hn]; [rewrite lk_setv_same in H; apply Hh in H; tauto|now rewrite lk_setv_other in H]. }
+      eapply I2; eauto.
+    - intros j t0. rewrite tholder_snoc. cbn [hstep o_spin]. unfold StripingPolicy.zn. rewrite Nat2Z.id.
+      destruct (Nat.eq_dec j i) as [->|Hne].
+      + rewrite upd1_same. split; [discriminate|]. intros H0. exfalso.
+        destruct (Nat.eq_dec t0 t) as [->|Hn].
+        * rewrite lk_setv_same in H0. apply Hh in H0. tauto.
+        * rewrite lk_setv_other in H0 by exact Hn. apply Hn. eapply I2; eauto.
+      + rewrite upd1_other by exact Hne. rewrite I3. destruct (Nat.eq_dec t0 t) as [->|Hn].
+        * rewrite lk_setv_same, Hh. tauto.
+        * now rewrite lk_setv_other.
+    - intros t0 j H. cbn [mask sl_set set_spins]. destruct (Nat.eq_dec t0 t) as [->|Hn].
+      + rewrite setv_same, Hm. rewrite lk_setv_same in H. apply Hh in H. destruct H. eauto.
+      + rewrite lk_setv_other in H by exact Hn. rewrite setv_other by exact Hn. eauto.
+    - intros t0 b H. cbn [buckets sl_set set_spins]. destruct (Nat.eq_dec t0 t) as [->|Hn].
+      + rewrite setv_same, Hr. rewrite lk_setv_same in H. apply Hh in H. destruct H. eauto.
+      + rewrite lk_setv_other in H by exact Hn. rewrite setv_other by exact Hn. eauto.
+    - exact I6.
+    - exact I7.
+    - destruct I8 as (s & st & H1 & H2 & H3 & H4). exists s, st. rewrite hist_of_acc.
+      split; [exact H1|]. split; [exact H2|]. split.
+      + intros t0. rewrite H3. destruct (Nat.eq_dec t0 t) as [->|Hn]; [now rewrite setv_same|now rewrite setv_other].
+      + cbn [buckets sl_set set_spins]. eapply absrel_ext; [|exact H4].
+        intros x. symmetry. apply (pend_setv_same a t v' Hp' Hp x).
   Qed.
 
 End Striping.
